@@ -54,6 +54,9 @@ fn options_from(v: &serde_json::Value) -> GraphQLClientCodegenOptions {
     if let Some(a) = v.get("extern_enums").and_then(|m| m.as_array()) {
         o.set_extern_enums(a.iter().filter_map(|x| x.as_str().map(|s| s.to_owned())).collect());
     }
+    if let Some(s) = v.get("serde_path").and_then(|m| m.as_str()) {
+        o.set_serde_path(syn::parse_str(s).expect("serde path"));
+    }
     if let Some(s) = v.get("custom_scalars_module").and_then(|m| m.as_str()) {
         o.set_custom_scalars_module(syn::parse_str(s).expect("custom_scalars_module path"));
     }
